@@ -63,7 +63,8 @@ ASSUMPTIONS = [
     'non-ASCII string',
     'a scope id is over-long above 15 characters (IFNAMSIZ-1), the limit the statement refers to',
 ]
-SHARDS = {'quick': 1, 'thorough': 16}
+INTERPRETER_FLAGS = [[], ['-O'], [], ['-bb']]
+SHARDS = {'quick': 4, 'thorough': 16}
 MIN_DISTINCT = {'quick': 20000, 'thorough': 400000}
 
 # --------------------------------------------------------------------------
